@@ -3,7 +3,7 @@ import re
 
 from asyncio_taskpool import SimpleTaskPool, TaskPool
 from asyncio_taskpool.exceptions import InvalidGroupName
-from engine.prog import Interp, parts_product, select
+from engine.prog import Interp, parts_product, refine, select
 from engine.spec import Family
 from engine.world import Excluded, World
 
@@ -174,7 +174,7 @@ def families(tier):
         parts = parts_product(x1=range(7), x2=range(NOP))
     else:
         pre += ["x4 == %d" % NOP, "a4 == 0", "size <= 2 or size >= 6", "t >= 4"]
-        parts = parts_product(x1=range(7), x2=range(NOP))
+        parts = refine(parts_product(x1=range(7), x2=range(NOP)), ["x2 == %d" % k for k in range(7)], "x3", range(NOP + 1))
     return [
         Family(name="groups", fn="tpl_groups", params=P, pre=pre, parts=parts,
                twin_pre=["x1 == 1", "x2 == 3", "x3 == 7", "x4 == %d" % NOP], twin_args=[6, 1, 0, 3, 0, 7, 0, NOP, 0, 9]),
